@@ -269,7 +269,7 @@ def ast_to_desc(ast, name=""):
         return tother(t["id"])
 
     def mod_of(m):
-        return -1 if m is None else int(m.lstrip("+"))
+        return -1 if m is None else int(m.lstrip("+"), 0)
 
     def field_of(f):
         k = f["kind"]
